@@ -95,10 +95,11 @@ def judge(ctx, cases):
         elif case["ev"] == "write":
             wit = {"tree": show(case["tree"])}
         else:
-            wit = {"text": case["text"], "gen.Parser": show(L["g"]), "Generify(oj.Parser)": show(L["o"])}
+            r = next((x for x in L["rs"] if not x["gerr"] and not x["oerr"] and x["g"] != x["o"]), L["rs"][0])
+            wit = {"text": L["text"], "mode": r["m"], "gen.Parser": show(r["g"]), "Generify(oj.Parser)": show(r["o"])}
         recs.append({"api": b["api"], "kind": b["kind"], "locus": locus, "witness": wit, "case": case})
     nconv = sum(1 for l in case_lines if b'"ev":"conv"' in l)
-    ctx.cov["evaluations"] += sum(1 + l.count(b'"side"') for l in tlines) + 6 * sum(l.count(b'"outs"') for l in tlines) + 2 * (len(tlines) - nconv)
+    ctx.cov["evaluations"] += sum(1 + l.count(b'"side"') for l in tlines) + 6 * sum(l.count(b'"outs"') for l in tlines) + 2 * sum(l.count(b'"gerr"') for l in tlines)
     ctx.cov["mutation_experiments"] = ctx.cov.get("mutation_experiments", 0) + sum(l.count(b'"side"') for l in tlines)
     return recs
 
@@ -143,7 +144,7 @@ def main(ctx):
                        "and after; TLC replays Build/Copy|InPlace/Mutate of Convert.tla and judges Preserve, InputKept, "
                        "NoInterference. Plus seeded random trees (boundary integers, float32, nanosecond times, big numbers), "
                        "writer cross-checks on every subtree (oj.JSON, sen.String, pretty.JSON; simple vs gen) and parser "
-                       "cross-checks on random JSON texts. distinct_nontrivial = number of distinct cases (operation x tree x experiments, writer trees, texts) other than a bare null.")
+                       "cross-checks on random JSON texts (number forms, escaped strings followed by plain ones, quotes padded to the last byte of a 4096-byte read) through Parse and through ParseReader with whole, 1-, 3-, 7-byte and half reads. distinct_nontrivial = number of distinct cases (operation x tree x experiments, writer trees, texts) other than a bare null.")
     ctx.assumptions += [
         "options fixed to keep nulls and times: ojg.Options{OmitNil:false, TimeFormat:\"time\"}",
         "integer widths normalise to int64/gen.Int, float32 to float64; alt.Decompose/Dup/Alter may return the nicer float64 that rounds to the same float32",
